@@ -110,6 +110,24 @@ async fn one(ctx: &mut Ctx, case: u64, rng: &mut Rng, ep: &Endpoint, gossip: &Go
             }
         }
     }
+    // One history in three starts with the open guard as a client meets it (added after seeded change
+    // agent-C16-7): a document held through one or more client handles, synced or not, is dropped. A
+    // drop while a second handle has the document open must be refused and must leave the document
+    // as it was; in between, a stale handle of a dropped document is used and the same document is
+    // imported again.
+    if case % 3 == 1 {
+        match open_guard(ctx, case, rng, &docs, authors[0], &mut trace).await {
+            Ok(Some(d)) => open.push(Some(d)),
+            Ok(None) => {}
+            Err(e) => {
+                ctx.harness_error(format!("open-guard scenario: {e:?}"));
+                return;
+            }
+        }
+        if !ctx.violations.is_empty() {
+            return;
+        }
+    }
     let mut dropped_any = false;
     let mut asked = 0;
     let steps = rng.range(3, 12);
@@ -227,5 +245,113 @@ async fn one(ctx: &mut Ctx, case: u64, rng: &mut Rng, ep: &Endpoint, gossip: &Go
     }
     if ctx.want_sample() {
         ctx.sample(json!({"case": case, "mode": "engine", "trace": trace}));
+    }
+}
+
+
+/// Returns a fresh handle of the scenario's document if it still exists at the end.
+/// `None` when the document does not exist (the API reports that as an error or as `None`).
+async fn try_open(docs: &Docs, id: iroh_docs::NamespaceId) -> Option<Doc> {
+    docs.open(id).await.ok().flatten()
+}
+
+/// Close every handle of the scenario (closing a document that is not open is a no-op) and hand the
+/// document over to the rest of the history through one fresh handle.
+async fn hand_over(docs: &Docs, id: iroh_docs::NamespaceId, handles: Vec<Doc>) -> Option<Doc> {
+    for h in handles {
+        let _ = h.close().await;
+    }
+    try_open(docs, id).await
+}
+
+async fn open_guard(ctx: &mut Ctx, case: u64, rng: &mut Rng, docs: &Docs, author: iroh_docs::AuthorId, trace: &mut Vec<String>) -> anyhow::Result<Option<Doc>> {
+    let secret = iroh_docs::NamespaceSecret::from_bytes(&rng.fill32());
+    let id = secret.id();
+    let cap = iroh_docs::Capability::Write(secret);
+    let mut handles: Vec<Doc> = vec![docs.import_namespace(cap.clone()).await?];
+    let mut exists = true;
+    let mut entries = 0usize;
+    ctx.count("open_guard_scenarios", 1);
+    for step in 0..rng.range(3, 9) {
+        match rng.below(7) {
+            0 | 1 => {
+                if let Some(d) = try_open(docs, id).await {
+                    handles.push(d);
+                    trace.push(format!("guard: another handle opened ({} now)", handles.len()));
+                }
+            }
+            2 => {
+                if handles.len() > 1 {
+                    let d = handles.pop().unwrap();
+                    d.close().await?;
+                    trace.push(format!("guard: a handle closed ({} left)", handles.len()));
+                }
+            }
+            3 => {
+                let r = handles[0].start_sync(vec![]).await;
+                trace.push(format!("guard: start_sync -> {}", r.is_ok()));
+            }
+            4 => {
+                let r = handles[0].leave().await;
+                trace.push(format!("guard: leave -> {}", r.is_ok()));
+            }
+            5 => {
+                if handles[0].set_bytes(author, vec![b'g', step as u8], format!("guard-{case}-{step}").into_bytes()).await.is_ok() {
+                    entries += 1;
+                }
+            }
+            _ => {
+                let held = handles.len();
+                let r = docs.drop_doc(id).await;
+                trace.push(format!("guard: drop with {held} handle(s) open -> {}", r.is_ok()));
+                if held >= 2 {
+                    ctx.count("drops_attempted_while_open_through_another_handle", 1);
+                    let still = try_open(docs, id).await;
+                    let n = match &still {
+                        Some(d) => {
+                            let st = d.get_many(Query::all().include_empty()).await?;
+                            tokio::pin!(st);
+                            let mut n = 0;
+                            while let Some(e) = st.next().await {
+                                e?;
+                                n += 1;
+                            }
+                            Some(n)
+                        }
+                        None => None,
+                    };
+                    if r.is_ok() || n != Some(entries) {
+                        ctx.violation(case, "document-removed-while-open-through-another-handle", json!({"handles_open": held, "drop_succeeded": r.is_ok(), "entries_before": entries, "entries_after": n, "trace": trace}));
+                        return Ok(None);
+                    }
+                    // what the refused drop did to the handle count is not part of the statement: stop here
+                    handles.extend(still);
+                    return Ok(hand_over(docs, id, handles).await);
+                }
+                if r.is_ok() {
+                    exists = false;
+                    // a stale handle of the dropped document is still around and gets used
+                    let stale = handles.pop().unwrap();
+                    let r2 = stale.start_sync(vec![]).await;
+                    trace.push(format!("guard: start_sync through the stale handle of the dropped document -> {}", r2.is_ok()));
+                    ctx.count("stale_handles_used_after_a_drop", 1);
+                    if try_open(docs, id).await.is_some() {
+                        ctx.violation(case, "dropped-document-can-still-be-opened", json!({"trace": trace}));
+                        return Ok(None);
+                    }
+                    handles = vec![docs.import_namespace(cap.clone()).await?];
+                    exists = true;
+                    entries = 0;
+                    trace.push("guard: the same document imported again".into());
+                } else {
+                    return Ok(hand_over(docs, id, handles).await);
+                }
+            }
+        }
+    }
+    if exists {
+        Ok(hand_over(docs, id, handles).await)
+    } else {
+        Ok(None)
     }
 }
